@@ -458,6 +458,19 @@ impl Ctx {
         Ok(())
     }
 
+    /// recursive table pages a call may touch that works on the entry of `vaddr` in the level-`deepest`
+    /// table (a 4 KiB / 2 MiB / 1 GiB leaf lives in a level-1 / 2 / 3 table; set_flags_pN_entry works
+    /// on the level-N table): the tables of levels 4 down to `deepest`, nothing below
+    fn rec_pages_to(&self, vaddr: u64, deepest: u8) -> BTreeSet<u64> {
+        let all = self.rec_pages_list(vaddr);
+        all.into_iter().take(5 - deepest.clamp(1, 4) as usize).collect()
+    }
+    fn rec_pages_list(&self, vaddr: u64) -> Vec<u64> {
+        let r = self.rec as u64;
+        let i = |l: u8| model::idx(vaddr, l) as u64;
+        let mk = |a: u64, b: u64, c: u64, d: u64| sign_extend48((a << 39) | (b << 30) | (c << 21) | (d << 12));
+        vec![mk(r, r, r, r), mk(r, r, r, i(4)), mk(r, r, i(4), i(3)), mk(r, i(4), i(3), i(2))]
+    }
     /// recursive table pages a call on `vaddr` may touch (independent formula)
     fn rec_pages(&self, vaddr: u64) -> BTreeSet<u64> {
         let r = self.rec as u64;
@@ -704,7 +717,7 @@ where
             }
             ctx.alloc.fail = fail;
             if ctx.backend == Backend::Recursive {
-                allowed = Some(ctx.rec_pages(va));
+                allowed = Some(ctx.rec_pages_to(va, lvl));
             }
             // the call
             let r: Outcome<Result<u64, String>> = by_size!(lvl, |S| {
@@ -862,7 +875,7 @@ where
             }
             let st = ctx.model.state(va, lvl);
             if ctx.backend == Backend::Recursive {
-                allowed = Some(ctx.rec_pages(va));
+                allowed = Some(ctx.rec_pages_to(va, lvl));
             }
             let r: Outcome<Result<(u64, u64), String>> = by_size!(lvl, |S| {
                 let pg = page_of::<S>(va);
@@ -917,7 +930,7 @@ where
             let fl = ctx.pick_flags(*flags, lvl);
             let st = ctx.model.state(va, lvl);
             if ctx.backend == Backend::Recursive {
-                allowed = Some(ctx.rec_pages(va));
+                allowed = Some(ctx.rec_pages_to(va, lvl));
             }
             let r: Outcome<Result<u64, String>> = by_size!(lvl, |S| {
                 let pg = page_of::<S>(va);
@@ -975,7 +988,7 @@ where
             }
             let pf = ctx.pick_pflags(*pflags);
             if ctx.backend == Backend::Recursive {
-                allowed = Some(ctx.rec_pages(va));
+                allowed = Some(ctx.rec_pages_to(va, tl));
             }
             // classification by the level-t entry on the page's walk
             #[derive(Debug, PartialEq, Clone, Copy)]
@@ -1055,7 +1068,7 @@ where
                 return Ok(());
             }
             if ctx.backend == Backend::Recursive {
-                allowed = Some(ctx.rec_pages(va));
+                allowed = Some(ctx.rec_pages_to(va, lvl));
             }
             let s = translate_page_check(ctx, m, va, lvl)?;
             ctx.results.push((ctx.step, s));
@@ -1287,6 +1300,34 @@ where
     });
     if let Outcome::Panic(msg) = r {
         fail!(T_C10, "{} panicked: {}", what, msg);
+    }
+    // recursive mapper: every table that lies wholly inside the range has to be examined (there is no
+    // other way to learn whether it is empty), and it and its ancestors are reached through the
+    // recursive addresses the index-repetition formula gives for *that* table
+    if ctx.backend == Backend::Recursive && !ctx.degraded && !empty {
+        let visited: BTreeSet<u64> = mem().log.iter().filter_map(|a| if let Access::Mmu { vpage, .. } = a { Some(*vpage) } else { None }).collect();
+        let r = ctx.rec as u64;
+        let mk = |a: u64, b: u64, c: u64, d: u64| sign_extend48((a << 39) | (b << 30) | (c << 21) | (d << 12));
+        let mut missing: Option<(u8, u64, u64)> = None;
+        before_model.root.for_each_table(&mut |t| {
+            if t.level < 4 && missing.is_none() {
+                let (a, b) = span_of(t);
+                if a >= rs && b <= re {
+                    let i = |l: u8| model::idx(t.base, l) as u64;
+                    let chain = [mk(r, r, r, r), mk(r, r, r, i(4)), mk(r, r, i(4), i(3)), mk(r, i(4), i(3), i(2))];
+                    // the table itself (level L) is chain[4 - L]; its ancestors are the ones before it
+                    for (k, pg) in chain.iter().take(5 - t.level as usize).enumerate() {
+                        if !visited.contains(pg) {
+                            missing = Some((4 - k as u8, t.base, *pg));
+                            break;
+                        }
+                    }
+                }
+            }
+        });
+        if let Some((lvl, base, pg)) = missing {
+            fail!(T_C20 | T_C10, "{}: the level-{} table on the way to / of the table at {:#x}, which lies wholly inside the range, was never accessed through its recursive address {:#x} (pages accessed: {:x?})", what, lvl, base, pg, visited);
+        }
     }
     // process the deallocation log in order
     let log = ctx.alloc.log.clone();
